@@ -162,17 +162,17 @@ type FS struct {
 	Root    *Node
 	nextIno uint64
 
-	evmu         sync.Mutex // events, monitors, gates, faults
-	calls        []*Call
-	active       map[int64]*Call
-	handles      map[int]*HState
-	nextH        int
-	nextCall     int64
-	overlaps     []Overlap
-	nameViol     []string
+	evmu     sync.Mutex // events, monitors, gates, faults
+	calls    []*Call
+	active   map[int64]*Call
+	handles  map[int]*HState
+	nextH    int
+	nextCall int64
+	overlaps []Overlap
+	nameViol []string
 	// NoModeOnce: that many GetAttr calls from now on succeed without
 	// reporting Mode as valid (guarded by mu).
-	NoModeOnce int
+	NoModeOnce   int
 	notes        []string
 	gates        []*Gate
 	faults       []*Fault
